@@ -609,6 +609,22 @@ func catalogue(p *profile, s Schema) []Edit {
 					}})
 			}
 			if k.Name != "" {
+				// another name is another constraint: the old one is dropped, the new one added
+				nn := k.Name + "_renamed"
+				add(Edit{Kind: "rename-check", Desc: "check " + tn + "." + id + ": dropped and re-added under the name " + nn, Keys: []string{ckey, tn + "/K:" + nn}, Needs: []string{needT},
+					Apply: func(s *Schema) {
+						t := s.table(tn)
+						for i := range t.Checks {
+							if match(t.Checks[i]) {
+								t.Checks[i].Name = nn
+							}
+						}
+					}, Exp: []string{fmt.Sprintf("%s/-CK(%s:%s)", tn, k.Name, hx(k.Expr)), fmt.Sprintf("%s/+CK(%s:%s)", tn, nn, hx(k.Expr))}})
+				// a second named check with the same expression is a constraint of its own
+				tw := k.Name + "_twin"
+				add(Edit{Kind: "add-check", Desc: "check " + tn + "." + id + ": add a twin " + tw + " with the same expression", Keys: []string{tn + "/K:" + tw}, Needs: []string{needT, ckey},
+					Apply: func(s *Schema) { t := s.table(tn); t.Checks = append(t.Checks, Check{Name: tw, Expr: k.Expr}) },
+					Exp:   []string{fmt.Sprintf("%s/+CK(%s:%s)", tn, tw, hx(k.Expr))}})
 				rename("name dropped, same expression", "")
 			} else {
 				rename("name given, same expression", "n_named")
